@@ -800,6 +800,19 @@ _PROCESS_MOD = sorted(set(_PCFF_MOD) | set(CONTRACTS[_PGN_FRAME].modifies))
 _OPT_KINDS = {"bool": (BOOL, "optimizeCFF", [False, True]), "level": (INT, "optimizeCFF >= 2", [-1, 0, 1, 2, 3, 7])}
 
 
+def no_cffsubr_downgrade(T, case):
+    """precondition of process / postprocess (not of process_cff): the font is not a CFF2 font that cffsubr is asked to turn into
+    CFF 1.  ufo2ft accepts that cell (process_cff proves the call that is made), but `cffsubr.subroutinize(otf, cff_version=1,
+    keep_glyph_names=False)` on a CFF2 font whose post table stores no names invents glyph names, so the new CFF charset
+    disagrees with the TTFont's glyph order and the font can no longer be saved (KeyError in hhea.recalc) — which is what the
+    glyph-name step does next when it renames (notes/C12.md, observation F-C12-a).  Call sites: compileOTF hands the
+    post-processor the outline compiler's font, which has a 'CFF ' table (IN = 1); CFF2 fonts come from varLib (variable fonts),
+    for which CFF 1 is not an output format."""
+    if case not in ("default", "cffsubr"):
+        return []
+    return [f"not ({T.has_table0} and ({T.opt}) and {T.IN0} == 2 and {T.OUT0} == 1)"]
+
+
 def process_contract_parts(T, case):
     old_has = "old(" + T.has_table0 + ")"
     ens = {k: f"implies({old_has}, {v})" for k, v in T.ensures(case).items()}
@@ -821,7 +834,7 @@ for _kind, (_oty, _opt, _) in _OPT_KINDS.items():
                 # compileOTF / compileTTF reach process through BaseCompiler.compile -> postprocess(font, ufo, glyphSet): info=None
                 # (only variable-font builds pass fontinfo overrides; apply_fontinfo is C16's InfoCompiler)
                 "self.info is None",
-            ],
+            ] + no_cffsubr_downgrade(_T, _case),
             calls={f"{PP}.process_cff": f"{PP}.process_cff#{_case}", f"{PP}.process_glyph_names": _PGN_FRAME},
             modifies=_PROCESS_MOD,
             raises=_raises,
@@ -1067,7 +1080,7 @@ for _case in _SUB_PARAM:
         params={"self": Ref("C12Compiler"), "ttf": Ref("PPFont"), "ufo": Ref("PPUfo"), "glyphSet": Ref("PPGlyphSet"), "info": Const(None)},
         returns=Ref("PPFont"),
         globals=_PRUNE_GLOBALS,
-        requires=[_SUB_IS[_case]],
+        requires=[_SUB_IS[_case]] + no_cffsubr_downgrade(_T_POST, _case),
         calls={f"{PP}.process": f"{PP}.process#level/{_case}"},
         modifies=_POSTPROCESS_MOD,
         raises=_raises,
